@@ -113,6 +113,7 @@ def run(chk):
     chk.call(r4_formula, chk, f)
     chk.call(r5_length, chk, f)
     chk.call(r6_orientation_and_table, chk, f)
+    chk.call(r6_frames_of_reference, chk, f)
     # R7: the direction "away from the neighbours" is computed with mean_plane / rotation_matrix_from_vectors: they must not
     # alter the array handed to them nor consult hidden state (the clause C11.R5 decides, for the helpers this routine calls)
     from . import c11
@@ -498,6 +499,35 @@ def r5_length(chk, f):
         ok = "L" in names and "a_coord" in names and offset_ok
         chk.decide(ok, "C16.R5", f"{f.key}:coordinate-{i}:depends-on-position-and-length", f.where(c), f"`{short(coord, 40) if coord is not None else None}` derives from a_coord and L",
                    f"the coordinate `{short(coord, 50) if coord is not None else None}` of a new hydrogen does not depend on " + " / ".join(x for x, y in (("the atom's position", "a_coord" in names), ("the bond length L", "L" in names)) if not y))
+
+
+def r6_frames_of_reference(chk, f):
+    """Two wiring facts of the placement: (a) the table's reference vertex is turned onto the computed direction -
+    `rotation_matrix_from_vectors(TETRAHEDRON[0], vec)`: the matrix takes its FIRST argument to the second (rows are multiplied from the
+    left, `TETRAHEDRON @ R`); with the arguments swapped the hydrogens point towards the neighbour.  (b) vectors to the neighbours are taken
+    relative to the atom: `coord_subset(neighbors) - a_coord`; absolute positions give a plane normal that depends on where the molecule sits."""
+    from ..canon import Env
+
+    env = Env(f.node)
+    n = 0
+    for c in [x for x in walk_no_nested(f.node) if isinstance(x, ast.Call) and (call_name(x) or "").split(".")[-1] == "rotation_matrix_from_vectors" and len(x.args) >= 2]:
+        n += 1
+        a0, a1 = norm(c.args[0]), norm(c.args[1])
+        chk.decide(a0.startswith("TETRAHEDRON[") and "TETRAHEDRON" not in a1, "C16.R6", f"{f.key}:table-vertex-turned-onto-direction", f.where(c),
+                   f"rotation_matrix_from_vectors({a0}, {a1})",
+                   f"rotation_matrix_from_vectors({a0}, {a1}) turns the computed direction onto the table's reference vertex instead of the other way round: the three hydrogens keep their count "
+                   "and length but point towards the existing neighbour")
+    for s_ in walk_no_nested(f.node):
+        if isinstance(s_, ast.Assign) and isinstance(s_.targets[0], ast.Tuple) and len(s_.targets[0].elts) == 2 and "coord_subset" in norm(s_.value) \
+                and any(isinstance(c_, ast.Call) and call_name(c_) in ("np.cross", "numpy.cross") and {norm(a_) for a_ in c_.args} == {norm(t_) for t_ in s_.targets[0].elts} for c_ in walk_no_nested(f.node)):
+            n += 1
+            v = env.expand(s_.value, at=s_, keep={"a_coord"})
+            rel = isinstance(v, ast.BinOp) and isinstance(v.op, ast.Sub) and norm(v.right) in ("a_coord", "self.get_atom_coord(a)")
+            chk.decide(rel, "C16.R6", f"{f.key}:neighbour-vectors-relative-to-the-atom", f.where(s_), f"`{short(s_, 50)}`",
+                       f"`{short(s_, 60)}`: the two neighbour vectors whose cross product gives the out-of-plane direction are absolute positions, not positions relative to the atom - "
+                       "for an atom away from the origin the two hydrogens land at the wrong distance and direction")
+    if n < 2:
+        chk.note(f"C16.R6 frames of reference: only {n} of the two wiring sites (table rotation, two-neighbour frame) were recognised in this shape; the others are not decided")
 
 
 def r6_orientation_and_table(chk, f):
